@@ -18,6 +18,7 @@ def add(pid, technique, text, note, engine=None):
 exec(open(os.path.join(HERE, "tools", "manifest_table.py")).read())
 
 ALL = ["C%02d" % i for i in range(1, 21)]
+CATEGORY = {"C06": "fault_enumeration"}
 NOT_APPLICABLE = globals().get("NOT_APPLICABLE", {})
 
 checks = []
@@ -31,7 +32,7 @@ for pid in ALL:
         "thorough_cmd": "%s -m vf.run --prop %s --tier thorough" % (PY, pid),
         "evidence_file": "/verif/evidence/%s.json" % pid,
         "replay_cmd_template": "%s -m vf.run --prop %s --replay {path}" % (PY, pid),
-        "level_claimed": {"category": "exploration", "text": c["text"], "design_ref": "DESIGN.md section 3, %s" % pid},
+        "level_claimed": {"category": CATEGORY.get(pid, "exploration"), "text": c["text"], "design_ref": "DESIGN.md section 3, %s" % pid},
         "level_note": c["note"],
         "technique": c["technique"],
     }
